@@ -287,6 +287,22 @@ output_instance(ostream &out, int indent_level, CPPScope *scope,
   parm_string << "(";
   _parameters->output(parm_string, scope, true, num_default_parameters);
   parm_string << ")";
+
+  // The cv-qualifiers, exception specification and attributes of the function
+  // belong right after its parameter list, inside any declarator of the return
+  // type that wraps around it.
+  if (_flags & F_const_method) {
+    parm_string << " const";
+  }
+  if (_flags & F_volatile_method) {
+    parm_string << " volatile";
+  }
+  if (_flags & F_noexcept) {
+    parm_string << " noexcept";
+  }
+  if (!_attributes.is_empty()) {
+    parm_string << " " << _attributes;
+  }
   string str = parm_string.str();
 
   if (_flags & (F_constructor | F_destructor)) {
@@ -321,24 +337,11 @@ output_instance(ostream &out, int indent_level, CPPScope *scope,
     }
   }
 
-  if (_flags & F_const_method) {
-    out << " const";
-  }
-  if (_flags & F_volatile_method) {
-    out << " volatile";
-  }
-  if (_flags & F_noexcept) {
-    out << " noexcept";
-  }
   if (_flags & F_final) {
     out << " final";
   }
   if (_flags & F_override) {
     out << " override";
-  }
-
-  if (!_attributes.is_empty()) {
-    out << " " << _attributes;
   }
 
   if (_flags & F_trailing_return_type) {
